@@ -627,6 +627,22 @@ func (e *Env) call(x *Expr) TV {
 			sfail("cast: only pointer payloads are supported")
 		}
 		return TV{IfcRef(a.T), pt.ty}
+	case "sprintf":
+		// sprintf("format", a, b...): the same uninterpreted function the code's fmt.Sprintf maps to
+		if len(x.Args) < 1 || x.Args[0].Kind != EStr {
+			sfail("sprintf needs a literal format")
+		}
+		format := x.Args[0].Name
+		var ts []Term
+		var sorts []Sort
+		for _, a := range x.Args[1:] {
+			t := e.Tr(a).T
+			ts = append(ts, t)
+			sorts = append(sorts, t.Sort)
+		}
+		name := "sprintf_" + sanitize(truncate(format, 24)) + "_" + shortHash(format)
+		e.x.b.DeclFun(name, sorts, SStr)
+		return TV{App(SStr, name, ts...), types.Typ[types.String]}
 	case "mapof":
 		m := e.Tr(x.Args[0])
 		return TV{e.mapValue(m), nil}
